@@ -431,6 +431,22 @@ def module_literal(mi, name: str) -> Optional[Term]:
         if isinstance(n, ast.UnaryOp) and isinstance(n.op, ast.USub) and isinstance(n.operand, ast.Constant) \
                 and isinstance(n.operand.value, (int, float)) and not isinstance(n.operand.value, bool):
             return ("const", -n.operand.value)  # NO_POSITION = -1
+        if isinstance(n, ast.Call) and isinstance(n.func, ast.Name) and n.func.id == "float" and len(n.args) == 1 and not n.keywords:
+            v = conv(n.args[0])
+            if v is not None and (v[0] == "K" or (v[0] == "const" and isinstance(v[1], (int, float)) and not isinstance(v[1], bool))):
+                return v if v[0] == "K" else ("const", float(v[1]))  # _UNREACHED = float(c.FLOAT_MAX)
+        if isinstance(n, ast.UnaryOp) and isinstance(n.op, ast.USub):
+            v = conv(n.operand)
+            if v is not None and v[0] == "K":
+                return ("neg", v)
+        if isinstance(n, ast.BinOp) and type(n.op) in OPS and OPS[type(n.op)] in ("+", "-", "*", "/"):
+            l, r = conv(n.left), conv(n.right)
+            num = lambda v: v is not None and (v[0] == "K" or (v[0] == "const" and isinstance(v[1], (int, float)) and not isinstance(v[1], bool)))
+            if num(l) and num(r) and "K" in (l[0], r[0]):
+                op = OPS[type(n.op)]
+                if op in ("+", "*"):
+                    l, r = sorted([l, r], key=tkey)
+                return ("bin", op, l, r)  # _DENSITY_RANGE = c.MAX_DENSITY - 1
         if isinstance(n, (ast.Tuple, ast.List)):
             items = [conv(x) for x in n.elts]
             if all(i is not None for i in items):
@@ -3273,6 +3289,9 @@ class Walker:
         for k, v in kwargs:
             if k in plist:
                 env[k] = v
+        if a.kwarg is not None:
+            # `**options`: the keyword arguments no parameter takes, as a table (handed on with `**options` it is those keywords)
+            env[a.kwarg.arg] = ("dict", tuple((("const", k), v) for k, v in kwargs if k not in plist and k != "**"))
         self.fnstack.append(fi)
         for p in plist:
             if p not in env:
